@@ -16,8 +16,14 @@ PROPS = {
     "C14": dict(units=["u_readers"],
                 replays=[dict(match=r"EqualReader<R>::drop:pre:n <= ALLOC_LIMIT", bin="c14_alloc", args=["99999999999999999"], input="POST with Content-Length: 99999999999999999 and 3 body bytes; handler responds without reading the body: the process must survive")],
                 claim="allocation bounds at every vec![_; n] site; panic freedom of the verified functions"),
-    "C15": dict(units=["u_readers"],
+    "C15": dict(units=["u_readers", "u_req"],
                 claim="EOF / Err of the source are contained by the readers"),
+    "C06": dict(units=["u_req", "u_seq"],
+                claim="slot state machine of Request: every consuming operation requires the slot occupied and takes it; respond prints exactly the given response (head only for HEAD) and flushes; Drop prints and flushes a 500 iff the slot is still occupied; lemma L-ONCE: every program allowed by ownership yields exactly one final response; SequentialWriter::drop releases the successor on every path (U-SEQ)",
+                not_decided=["NOT DECIDED: that unwinding from a panicking handler runs Drop (Rust semantics, A-DROP)", "ASSUMED in this unit: Response::raw_print / Response::empty / new_empty contracts (effect witnesses)"]),
+    "C18": dict(units=["u_req"],
+                claim="as_reader prints and flushes a head-only 100 exactly when the continue flag is set, clears the flag and leaves the slot occupied; no writer access otherwise; lemma L-ONCE: at most one interim response, before the final one",
+                not_decided=["NOT YET UNDER CONTRACT: new_request's computation of the continue flag and the no-pre-read rule (U-NEWREQ)"]),
     "C08": dict(units=["u_pool"],
                 claim="TaskPool::spawn re-establishes the dispatch invariant (queued connections <= registered idle workers) for every queue length and idle count, and either starts a thread for the connection or queues it and notifies a waiter",
                 replays=[dict(match=r"TaskPool::spawn", bin="c08_dispatch", args=["8", "10"],
